@@ -25,7 +25,7 @@ import (
 // Play: https://go.dev/play/p/0pVlxwjhdMT
 func Catch[T any](finally func(err error) Observable[T]) func(Observable[T]) Observable[T] {
 	return func(source Observable[T]) Observable[T] {
-		return NewUnsafeObservableWithContext(func(subscriberCtx context.Context, destination Observer[T]) Teardown {
+		return NewObservableWithContext(func(subscriberCtx context.Context, destination Observer[T]) Teardown {
 			subscriptions := NewSubscription(nil)
 
 			subscriptions.AddUnsubscribable(
